@@ -34,3 +34,22 @@ PROPS['C12'] = dict(
     trusted=['lib/dhcpmsg/{parse,assemble,optshelper}.go are modelled by hand in coq/model/Dhcp.v; the tie is the differential run'],
     assumptions=['option payload slices are treated as values (aliasing of the receive buffer is the subject of C09)'],
 )
+
+PROPS['C11'] = dict(
+    tests=['TestC11'],
+    monitor_tags=set(),
+    panic_is_violation={1101},
+    # the model of the lease store is proved equal to the reference table (c_run_refines); a disagreement
+    # between implementation and model on a history is a history on which the implementation differs from the table
+    spec_equal_tags={1101, 1102},
+    rule='histories of the public IPDB API inside a synctest bubble (exact clock): exhaustive over an alphabet of 28 operations '
+         '(2 addresses x 2 clients: 8 updates with ttl -1s/5s, 4 permanent inserts, 2 lookups, 12 searches over suggestion x probe pattern, '
+         'clock +1s/+6s) to length 3 (thorough 4); random histories of 6-40 operations over six configurations (ranges next to .255/.0, '
+         'disabled search, host bits in the network), nil/IPv6/out-of-network addresses, empty client ids, ttl -1s..15s, probe costs 0-600ms; '
+         'fromTo for every prefix length. Non-trivial = at least one operation; distinct by full case line.',
+    trusted=['lib/server/ipdb/{ipdb.go,clients/,uip/,duid/} are modelled by hand in coq/model/{Clients,Ipdb,IpdbCheck}.v',
+             'time.Now() under testing/synctest is the exact virtual clock; rand.Perm order is not modelled: a search result is validated '
+             '(own binding / suggested-first / eligible at its look-up time / none eligible) rather than predicted'],
+    assumptions=['each exported *IPDB method is one atomic step (gofacts: gf_ipdb_methods_locked)', 'the clock is non-decreasing'],
+)
+PROPS['C12']['spec_equal_tags'] = {1201, 1203}
